@@ -22,7 +22,7 @@ def _basis(prog, shell_cls, basis_cls):
         if list(ls) == [0, 1, 2]:
             co[:, 1] = Sym.const(0)  # a contraction whose coefficients all vanish is still a contraction
         shells.append(Rec(shell_cls, icenter=i % 3, angmoms=np.array(ls), kinds=list(ks), exponents=sym_array(f"a{i}", (2,)), coeffs=co))
-    return Rec(basis_cls, shells=shells, conventions={}, primitive_normalization="L2")
+    return Rec(basis_cls, shells=shells, conventions={}, primitive_normalization="L1")
 
 
 def _want_keep(ls, keep_sp):
@@ -78,6 +78,8 @@ def check_segmentation(ctx, rid_split, rid_pred):
                         break
             if bad is None and out.fields.get("conventions") is not src.fields["conventions"]:
                 bad = "the conventions of the basis are not carried over"
+            if bad is None and out.fields.get("primitive_normalization") != src.fields["primitive_normalization"]:
+                bad = f"the primitive normalization of the basis ({src.fields['primitive_normalization']!r}) is replaced by {out.fields.get('primitive_normalization')!r} while the contraction coefficients are copied unchanged"
             if bad:
                 ctx.violate(rid_split, f"convert_to_segmented(keep_sp={keep_sp}) on {len(SHELLS)} abstract shells: {bad}", cs, cs.node, construct=f"segmentation keep_sp={keep_sp}: {bad}"[:200])
             else:
